@@ -426,7 +426,7 @@ algo_stream = generic_stream(
 
 def build_cambrian_binary(ctx):
     tgt = os.path.join(ROOT, "harness", "target", "repo")
-    p = subprocess.run(["cargo", "build", "--offline", "--bin", "cambrian", "--manifest-path", "/repo/Cargo.toml", "--target-dir", tgt],
+    p = subprocess.run(["cargo", "build", "--offline", "--bin", "cambrian", "--manifest-path", os.path.join(os.environ.get("CAMBRIAN_REPO", "/repo"), "Cargo.toml"), "--target-dir", tgt],
                        stdout=subprocess.PIPE, stderr=subprocess.STDOUT, text=True, timeout=1800,
                        env=dict(os.environ, CARGO_NET_OFFLINE="true"))
     return p.returncode == 0, os.path.join(tgt, "debug", "cambrian"), p.stdout[-1500:]
@@ -632,7 +632,7 @@ PROPS = {
                              {"kind": "ops", "name": "p1long", "profile": "p1long", "count": {"quick": 48, "thorough": 600}, "salt": 173},
                              {"kind": "meta", "name": "selection", "profile": "mixed", "count": {"quick": 120, "thorough": 3000}, "salt": 171},
                              {"kind": "meta", "name": "bench", "profile": "bench", "count": {"quick": 64, "thorough": 1600}, "salt": 172}],
-                     tested=["benchmark battery (10 known-optimum problems x concurrency {1,4} x completion orders chosen by the harness, thresholds in MetaCheck.bench_ok) and 'within a few attempts' for ints: statements about pseudo-random trajectories, tested only; for reals the rule 'a lively interior real changes at probability 1' is checked on every p=1 mutation",
+                     tested=["benchmark battery (11 known-optimum problems x concurrency {1,4} x completion orders chosen by the harness, thresholds in MetaCheck.bench_ok) and 'within a few attempts' for ints: statements about pseudo-random trajectories, tested only; for reals the rule 'a lively interior real changes at probability 1' is checked on every p=1 mutation",
                              "that SelectionImpl::select_ref has the distribution Selection.sel_dist (proved monotone in the rank): 6000 samples per case against the exact rational probabilities within 3 + 7 sigma, plus the source-shape fact select_ref_is_bernoulli_walk_then_uniform"]),
     "C10": {
         "propfile": "theories/Properties/C10.v",
